@@ -58,7 +58,7 @@ func (c *Ctx) Roles() *Roles {
 					}
 				}
 			}
-			if calleeFullName(cl) == "encoding/json.Marshal" {
+			if c.isJSONEncode(cl, 0) {
 				if !isMW[s.Fn] {
 					isMW[s.Fn] = true
 					r.MetaWriters = append(r.MetaWriters, s.Fn)
@@ -613,6 +613,41 @@ func (c *Ctx) sameKeyExpr(a, b ssa.Value, bind map[*ssa.Parameter]ssa.Value, dep
 	if ba, ok := a.(*ssa.BinOp); ok {
 		if bb, ok := b.(*ssa.BinOp); ok && ba.Op == bb.Op {
 			return c.sameKeyExpr(ba.X, bb.X, bind, depth+1) && c.sameKeyExpr(ba.Y, bb.Y, bind, depth+1)
+		}
+	}
+	return false
+}
+
+// isJSONEncode: cl is encoding/json.Marshal, or a call of a library function that returns what such a call
+// returned (encodeMetadata(meta) ([]byte, error) { return json.Marshal(meta) }).
+func (c *Ctx) isJSONEncode(cl *ssa.Call, depth int) bool {
+	if calleeFullName(cl) == "encoding/json.Marshal" {
+		return true
+	}
+	if depth > 2 {
+		return false
+	}
+	g := staticCallee(cl)
+	if g == nil || !c.IsLib(c.declared(g)) {
+		return false
+	}
+	g = c.declared(g)
+	for _, ret := range returnsOf(g) {
+		rv, has := returnedValue(ret, 0)
+		if !has {
+			continue
+		}
+		for _, og := range origins(rv) {
+			switch x := og.(type) {
+			case *ssa.Extract:
+				if inner, ok := x.Tuple.(*ssa.Call); ok && c.isJSONEncode(inner, depth+1) {
+					return true
+				}
+			case *ssa.Call:
+				if c.isJSONEncode(x, depth+1) {
+					return true
+				}
+			}
 		}
 	}
 	return false
